@@ -412,6 +412,47 @@ pub fn k3_explains_rejection(g: Grammar, text: &str) -> K3Verdict {
     }
 }
 
+/// Raw parse (strict or incomplete mode) of preprocessed text under the thread's current memo configuration:
+/// tree and number of bytes consumed.
+pub fn raw_mode(g: Grammar, text: &str, incomplete: bool) -> Option<(RawTree, usize)> {
+    use sv_parser_parser::{lib_parser, lib_parser_incomplete, sv_parser, sv_parser_incomplete, Span, SpanInfo};
+    let span = Span::new_extra(text, SpanInfo::default());
+    match (g, incomplete) {
+        (Grammar::Sv, false) => sv_parser(span).ok().map(|(r, x)| (RawTree::Sv(x), text.len() - r.fragment().len())),
+        (Grammar::Sv, true) => sv_parser_incomplete(span).ok().map(|(r, x)| (RawTree::Sv(x), text.len() - r.fragment().len())),
+        (Grammar::Lib, false) => lib_parser(span).ok().map(|(r, x)| (RawTree::Lib(x), text.len() - r.fragment().len())),
+        (Grammar::Lib, true) => lib_parser_incomplete(span).ok().map(|(r, x)| (RawTree::Lib(x), text.len() - r.fragment().len())),
+    }
+}
+
+/// Raw parse under a given memo configuration (the thread's configuration is restored afterwards).
+pub fn raw_cfg(g: Grammar, text: &str, incomplete: bool, capacity: Option<usize>, rec_key: bool) -> Option<(RawTree, usize)> {
+    hooks::set_capacity(capacity);
+    hooks::set_key_includes_recursion_flags(rec_key);
+    let r = raw_mode(g, text, incomplete);
+    hooks::set_capacity(hooks::DEFAULT_CAPACITY);
+    hooks::set_key_includes_recursion_flags(false);
+    r
+}
+
+/// Does listed finding K3 touch one of the parses this case consists of? True iff for one of them the production
+/// configuration (capacity 1024, production key) gives a result that differs from the unbounded table's, while the
+/// unbounded table gives the same result under both keys (the signature used by C02 / C12, per parse).
+pub fn k3_touches(g: Grammar, parses: &[(&str, bool)]) -> bool {
+    for (text, incomplete) in parses {
+        let production = raw_cfg(g, text, *incomplete, hooks::DEFAULT_CAPACITY, false);
+        let unbounded = raw_cfg(g, text, *incomplete, None, false);
+        if production != unbounded {
+            let aware = raw_cfg(g, text, *incomplete, None, true);
+            if aware == unbounded {
+                return true;
+            }
+        }
+    }
+    false
+}
+
+
 #[derive(Clone, Debug, PartialEq)]
 pub enum MemoOutcome {
     Accepted(RawTree),
